@@ -60,14 +60,17 @@ def pinned_matnet_randomness(policy):
         emb.forward = orig_forward
 
 
+DECODE_KW = dict(decode_type="greedy")
+
+
 def decode(pol, env, td_in, tap=False):
     td = env.reset(td_in.clone())
     with torch.inference_mode():
         if tap:
             with PolicyTap(pol) as rec:
-                out = pol(td, env, phase="test", decode_type="greedy", return_actions=True)
+                out = pol(td, env, phase="test", return_actions=True, **DECODE_KW)
             return out, rec
-        return pol(td, env, phase="test", decode_type="greedy", return_actions=True), None
+        return pol(td, env, phase="test", return_actions=True, **DECODE_KW), None
 
 
 def min_margin(rec, row=0):
@@ -98,6 +101,13 @@ def case(ctx, case):
     td_in = env.generator(batch_size=[m])
     rnd = random.Random(seed)
     sig = dict(policy=kind, env=name)
+    global DECODE_KW
+    if case.get("multistart"):
+        # best-of-k greedy multi-start (what evaluate_policy / POMO validation report per instance): also per-instance
+        DECODE_KW = dict(decode_type="multistart_greedy", num_starts=case["multistart"], select_best=True)
+        sig["decode"] = "multistart_greedy_best"
+    else:
+        DECODE_KW = dict(decode_type="greedy")
     with pinned_matnet_randomness(pol) if kind == "matnet" else contextlib.nullcontext():
         # ---- solo references ---------------------------------------------------------------------
         refs = []
